@@ -16,7 +16,7 @@ EXPLANATION = (
     "is incremented with the assignment (R4).")
 ASSUMPTIONS = ["hwloc-based topology queries return consistent numbers", "pika::detail::throws_if throws unless the caller supplied an error_code"]
 THOROUGH_CONFIGS = [["-UNDEBUG", "-DPIKA_DEBUG"]]
-FLOORS = {"C15.R1": 6, "C15.R2": 4, "C15.R3": 8, "C15.R4": 4, "C15.R5": 8, "C15.R6": 4, "C15.R7": 2, "C15.R8": 3}
+FLOORS = {"C15.R1": 6, "C15.R2": 4, "C15.R3": 8, "C15.R4": 4, "C15.R5": 8, "C15.R6": 4, "C15.R7": 2, "C15.R8": 3, "C15.R9": 3}
 
 DEC = ["decode_compact_distribution", "decode_scatter_distribution", "decode_balanced_distribution", "decode_numabalanced_distribution"]
 
@@ -177,6 +177,10 @@ def run(rep, tier):
     rep.rule("C15.R2", "K8: num_pus[i] = get_pu_number(a, b) and affinities[i] = init_thread_affinity_mask(a, b) use identical (a, b); the process mask is consulted")
     rep.rule("C15.R3", "K8: thread_func binds to affinity_data_.get_pu_mask(topo, global_thread_num) (machine mask if empty); workers numbered thread_offset_ + i")
     rep.rule("C15.R5", "K4 (value flow): every PU index a worker is bound to (init_thread_affinity_mask / get_pu_number) individually passed pu_in_process_mask: tested directly, equal to the tested index by linear bookkeeping, or read unmodified from a container filled only with such indices")
+    rep.rule("C15.R9", "K8 (the core that is tested is the core that is bound): in each decoder the core index handed to pu_in_process_mask and the core index handed to "
+             "init_thread_affinity_mask / get_pu_number for the same placement are the same sum of terms, up to the used_cores shift that only the binding side applies "
+             "(loop index, per-socket core offset, ...). Asking the mask question about another core - socket 0's core with the same local index - binds workers of later "
+             "sockets to PUs outside the process mask, or never finds a usable PU")
     rep.rule("C15.R6", "K8 (index spaces; sibling conversions in topology.cpp): OS cpusets and the user's process mask are numbered by OS CPU index, pika's masks by hwloc logical index. Every conversion loop sets the logical bit get_index(pu) exactly under the test of bit pu->os_index of the source (hwloc_bitmap_isset / test) for the same PU object")
     rep.rule("C15.R4", "K4/K8: add_resource assigns a PU only when unoccupied (unless oversubscription is allowed) and increments the occupancy with it")
 
@@ -330,6 +334,35 @@ def run(rep, tier):
                 rep.ok("C15.R7", f, "%s: every round either places a thread or leaves with the error" % d)
     if n7 < 2:
         raise AnalysisBroken("C15.R7: round-robin decoders with a per-core cursor not found (%d)" % n7)
+
+    # ---- R9: tested core == bound core
+    def terms9(tree):
+        t = T(strip(tree)).replace("(", "").replace(")", "")
+        return frozenset(x.strip() for x in t.split("+") if x.strip())
+    n9 = 0
+    for d in DEC:
+        f = fn(d)
+        tests = [terms9(e["args"][2]) for _, _, e in f.all_events() if e.get("k") == "call" and callee_short(e) == "pu_in_process_mask" and len(e.get("args", [])) >= 4]
+        binds = [(e, terms9(e["args"][0])) for _, _, e in f.all_events() if e.get("k") == "call" and callee_short(e) in ("init_thread_affinity_mask", "get_pu_number") and len(e.get("args", [])) >= 2]
+        if not tests or not binds:
+            continue
+        n9 += 1
+        bad9 = [(e, tb) for e, tb in binds if (tb - {"used_cores"}) not in tests and tb not in tests]
+        bound_sets = set(tb - {"used_cores"} for _, tb in binds) | set(tb for _, tb in binds)
+        # ... and in the other direction: no mask question about a core expression that is never bound
+        stray = [t_ for t_ in set(tests) if t_ not in bound_sets]
+        if stray and not bad9:
+            bad9 = [(binds[0][0], binds[0][1])]
+            tests = stray
+        if bad9:
+            e, tb = bad9[0]
+            rep.bad("C15.R9", f, loc_of(e), "tested-core-differs:" + d, "%s binds / reports core '%s' but asks pu_in_process_mask about core %s: the mask question is answered for another core "
+                    "than the one the worker is bound to (on machines with several sockets: socket 0's core with the same local index)" % (
+                        d, " + ".join(sorted(tb)), " / ".join(sorted(" + ".join(sorted(t_)) for t_ in set(tests)))))
+        else:
+            rep.ok("C15.R9", f, "%s: the core index tested against the process mask is the bound core index (up to used_cores)" % d)
+    if n9 < 3:
+        raise AnalysisBroken("C15.R9: only %d decoders with a mask test and a binding found" % n9)
 
     # ---- R6: physical -> logical conversions
     from engine.kinds import reaching_init
